@@ -28,6 +28,8 @@ Record obs := mkObs {
   o_done_at_return : bool;   (* the marker the daemon writes immediately before calling Done() existed when Launch
                                 returned: Launch did not return before Done() was entered (the signal is sent inside
                                 Done(), so this is the observable that cannot give a false alarm) *)
+  o_done_nil : bool;         (* Done() returned nil in the daemon (recorded by the handler), also when the handler
+                                scrubbed its environment before calling it *)
   o_right_handler : bool;    (* the returned pid runs the handler registered under the name given to Launch, and no
                                 other Launch of the group returned the same pid *)
   o_survived : bool          (* ~300 ms after Launch returned the daemon is still running and has got past its
@@ -38,7 +40,7 @@ Record obs := mkObs {
 
 Definition spec_ok (o : obs) : bool :=
   oclass_eqb (o_class o) OOk && o_pid_matches o && o_marker_at_return o && o_alive o && o_reparented o && o_launcher_gone o
-  && o_done_at_return o && o_right_handler o && o_survived o.
+  && o_done_at_return o && o_done_nil o && o_right_handler o && o_survived o.
 
 Definition class_of (s : state) : oclass :=
   match result s with
